@@ -253,7 +253,8 @@ fn judge(trace: &str, preds: &str) -> Value {
                 let got_a = [fr["compA"][0].as_i64().unwrap(), fr["compA"][1].as_i64().unwrap()];
                 let got_b = [fr["compB"][0].as_i64().unwrap(), fr["compB"][1].as_i64().unwrap()];
                 let mut exp_a = pa;
-                if *ca != prev_ca {
+                if ca[0] == "any" { exp_a = got_a; }            // the property leaves this frame's component open
+                else if *ca != prev_ca {
                     let c = ca.as_array().unwrap();
                     let mut tl = pool_tl!(A, c[1].as_i64().unwrap());
                     let ovf = c[2].as_i64().unwrap();
@@ -263,7 +264,8 @@ fn judge(trace: &str, preds: &str) -> Value {
                     exp_a = bits(v.x, v.y); evals += 1;
                 }
                 let mut exp_b = pb;
-                if cfg["hasb"].as_bool().unwrap() && *cb != prev_cb {
+                if cb[0] == "any" { exp_b = got_b; }
+                else if cfg["hasb"].as_bool().unwrap() && *cb != prev_cb {
                     let c = cb.as_array().unwrap();
                     let tl = pool_tl!(B, c[1].as_i64().unwrap());
                     let mut v = B { x: f32::from_bits(pb[0] as u32), y: f32::from_bits(pb[1] as u32) };
